@@ -54,10 +54,56 @@ def split_by_variant(f):
     return None
 
 
-def child_classes(f, body=None):
+def recv_path(f, n):
+    """the container an accessor is applied to, as a path from `self` (let-bound aliases resolved; a value obtained from a
+    non-view call keeps the call's name: self.as_slices().0 is a different container than self)"""
+    from ..ir import path_of, DEREF_LIKE
+    lets = {}
+    for x in walk(f["body"]):
+        if x.get("k") == "LetS" and x.get("init") is not None:
+            if x["pat"].get("k") == "Bind":
+                lets[x["pat"]["v"]] = (x["init"], None)
+            elif x["pat"].get("k") in ("Leaf", "Tuple"):
+                for i, sp in enumerate(x["pat"].get("subs", [])):
+                    q = sp.get("p", sp) if isinstance(sp, dict) else sp
+                    if isinstance(q, dict) and q.get("k") == "Bind":
+                        lets[q["v"]] = (x["init"], str(i))
+
+    def go(n, depth=0):
+        n = peel(n)
+        k = n.get("k")
+        if depth > 8:
+            return ("?",)
+        if k == "Var":
+            if n["v"] in lets:
+                init, proj = lets[n["v"]]
+                b = go(init, depth + 1)
+                return b + ((proj,) if proj is not None else ())
+            return (n["v"].split("#")[0],)
+        if k == "Field":
+            return go(n["e"], depth + 1) + (n["f"],)
+        if k == "Index":
+            return go(n["e"], depth + 1) + ("*",)
+        if k == "Cast":
+            return go(n["e"], depth + 1)
+        if k == "Block":
+            b = peel_block(n)
+            return go(b, depth + 1) if b is not n else ("?",)
+        if k == "Call" and n.get("args"):
+            c = callee(n) or ""
+            if c in DEREF_LIKE or c.endswith(("::as_ref", "::deref", "::borrow", "::as_slice", "::as_mut_slice", "::iter", "::as_str", "::load",
+                                              "::read", "::lock", "::unwrap", "::borrow_mut", "::deref_mut", "::as_mut", "::values", "::keys")):
+                return go(n["args"][0], depth + 1)
+            return go(n["args"][0], depth + 1) + ("<" + c.rsplit("::", 1)[-1] + ">",)
+        return ("?",)
+    return go(n)
+
+
+def child_classes(f, body=None, recvs=None):
     idx, derived = index_vars(f)
     out = set()
     lits = set()
+    recvs = recvs if recvs is not None else set()
     if idx is None:
         return {("?",)}, lits
     for x in walk(body if body is not None else f["body"]):
@@ -70,10 +116,12 @@ def child_classes(f, body=None):
                 v = var_of(x["args"][-1])
                 if v in derived:
                     out.add(("len", derived[v]))
+                    recvs.add(recv_path(f, x["args"][0]))
         elif k == "Index":
             v = var_of(x["i"])
             if v in derived:
                 out.add(("len", derived[v]))
+                recvs.add(recv_path(f, x["e"]))
         elif k == "Bin" and x["op"] in ("Ge", "Lt", "Gt", "Le", "Eq", "Ne"):
             for a, b in ((x["l"], x["r"]), (x["r"], x["l"])):
                 v = var_of(a)
@@ -94,6 +142,10 @@ def child_classes(f, body=None):
     if not out:
         out.add(("const", 0))
     return out, lits
+
+
+LEN_RECVS = None
+LEN_FN = None
 
 
 def len_classes(n):
@@ -122,6 +174,8 @@ def len_classes(n):
         if c == "savefile::Introspect::introspect_len":
             return {("delegate", n.get("self_ty"))}
         if c.endswith("::len"):
+            if LEN_RECVS is not None and n.get("args"):
+                LEN_RECVS.add(recv_path(LEN_FN, n["args"][0]))
             return {("len", 1)}
         return {("?", c)}
     if k == "Bin" and n["op"] == "Mul":
@@ -179,7 +233,8 @@ def s1(facts, tier):
             else:
                 yield ob(["C17"], "S1", name, "pass", where(ch), f"children and introspect_len agree for each of {len(cv)} variants")
             continue
-        cc, lits = child_classes(ch)
+        crecv = set()
+        cc, lits = child_classes(ch, None, crecv)
         if ("const-gap",) in {c[:1] for c in cc}:
             gap = [c for c in cc if c[0] == "const-gap"][0][1]
             yield ob(["C17"], "S1", name, "violation", where(ch), f"{ch['id']} serves children at indices {gap}: not consecutive from 0")
@@ -188,7 +243,10 @@ def s1(facts, tier):
             yield ob(["C17"], "S1", name, "pass", where(ch), f"children {sorted(map(str, cc))}; introspect_len is the trait default "
                      f"(counts the children actually served)", nontrivial=False)
             continue
+        global LEN_RECVS, LEN_FN
+        LEN_RECVS, LEN_FN = set(), ln
         lc = len_classes(ln["body"])
+        lrecv, LEN_RECVS = LEN_RECVS, None
         # Option-like: `None` child <-> 0
         norm = lambda s: {c for c in s}
         a, b = norm(cc), norm(lc)
@@ -197,8 +255,267 @@ def s1(facts, tier):
             continue
         a_cmp = {c for c in a if c != ("const", 0)} or {("const", 0)}
         b_cmp = {c for c in b if c != ("const", 0)} or {("const", 0)}
-        if a_cmp == b_cmp:
+        known = lambda ps: {p for p in ps if "?" not in p}
+        if a_cmp == b_cmp and known(crecv) and known(lrecv) and not (known(crecv) & known(lrecv)):
+            yield ob(["C17"], "S1", name, "violation", where(ch),
+                     f"{name}: introspect_len counts the elements of `{'.'.join(sorted(known(lrecv))[0])}` but introspect_child fetches them from "
+                     f"`{'.'.join(sorted(known(crecv))[0])}`: the reported count and the fetchable children are those of two different sequences")
+        elif a_cmp == b_cmp:
             yield ob(["C17"], "S1", name, "pass", where(ch), f"children and introspect_len agree: {sorted(map(str, a_cmp))}")
         else:
             yield ob(["C17"], "S1", name, "violation", where(ln), f"{name}: introspect_child serves {sorted(map(str, a_cmp))} children but "
                      f"introspect_len reports {sorted(map(str, b_cmp))}")
+
+
+# ---------------------------------------------------------------------------------------------
+# S3: flat-index accounting of IntrospectionResult::total_index (path-wise affine relations)
+
+def _t_add(a, b, k=1):
+    out = dict(a)
+    for s, c in b.items():
+        out[s] = out.get(s, 0) + k * c
+        if out[s] == 0:
+            del out[s]
+    return out
+
+
+def _t_show(t):
+    if not t:
+        return "0"
+    parts = []
+    for s, c in sorted(t.items(), key=lambda kv: str(kv[0])):
+        if s == 1:
+            parts.append(str(c))
+        else:
+            parts.append(("" if c == 1 else "-" if c == -1 else f"{c}*") + str(s))
+    return " + ".join(parts).replace("+ -", "- ")
+
+
+class AffinePaths:
+    """enumerates the acyclic paths of a loop-free function; every integer variable holds an affine term over the symbols of
+    the frame (selection, len(keyvals), index, the cursor on entry, the advance REC of the recursive call)"""
+
+    def __init__(self, f, cur_param, rec_fn):
+        self.f = f
+        self.cur = cur_param
+        self.rec_fn = rec_fn
+        self.results = []      # (kind, data, state)
+
+    def sym(self, n):
+        from ..ir import path_of
+        p = path_of(n)
+        if p:
+            return ".".join(x.split("#")[0] for x in p)
+        return None
+
+    def ev(self, n, st):
+        n = peel_block(peel(n)) if n.get("k") != "Deref" else n
+        k = n.get("k")
+        if k in ("Ref", "Coerce", "Cast"):
+            return self.ev(n["e"], st)
+        if k == "Deref":
+            inner = peel(n)
+            if inner.get("k") == "Var" and inner["v"] == self.cur:
+                return dict(st["cur"])
+            return self.ev(n["e"], st)
+        if k == "Lit" and "int" in n:
+            return {1: n["int"]} if n["int"] else {}
+        if k == "Var":
+            if n["v"] == self.cur:
+                return dict(st["cur"])
+            if n["v"] in st["vars"]:
+                return dict(st["vars"][n["v"]])
+            return {n["v"].split("#")[0]: 1}
+        if k == "Bin" and n["op"] in ("Add", "Sub"):
+            a, b = self.ev(n["l"], st), self.ev(n["r"], st)
+            if a is None or b is None:
+                return None
+            return _t_add(a, b, 1 if n["op"] == "Add" else -1)
+        if k == "Call" and (callee(n) or "").endswith("::len") and n.get("args"):
+            s = self.sym(n["args"][0])
+            return {f"len({s})": 1} if s else None
+        if k == "Field":
+            s = self.sym(n)
+            return {s: 1} if s else None
+        return None
+
+    def run(self):
+        st = {"vars": {}, "cur": {"cur0": 1}, "rec": 0, "trace": []}
+        for end in self.block(self.f["body"], st):
+            self.results.append(("fallthrough", None, end))
+        return self.results
+
+    def fork(self, st):
+        return {"vars": dict(st["vars"]), "cur": dict(st["cur"]), "rec": st["rec"], "trace": list(st["trace"])}
+
+    def block(self, n, st):
+        """yields the states that leave n normally"""
+        k = n.get("k")
+        if k == "Block":
+            states = [st]
+            for s in n["stmts"]:
+                nxt = []
+                for s0 in states:
+                    nxt.extend(self.stmt(s, s0))
+                states = nxt
+            if n.get("e") is not None:
+                nxt = []
+                for s0 in states:
+                    nxt.extend(self.stmt(n["e"], s0))
+                states = nxt
+            yield from states
+            return
+        yield from self.stmt(n, st)
+
+    def effects(self, n, st):
+        """apply the side effects of evaluating expression n (recursive call advancing the cursor)"""
+        for x in walk(n):
+            if x.get("k") == "Call" and ((x.get("res") or {}).get("fn") or x.get("fn")) == self.rec_fn:
+                st["rec"] += 1
+                st["cur"] = _t_add(st["cur"], {f"REC{st['rec']}": 1})
+                st["trace"].append("recursive call")
+
+    def stmt(self, s, st):
+        k = s.get("k")
+        if k == "ExprS":
+            yield from self.stmt(s["e"], st)
+        elif k == "LetS":
+            if s.get("init") is not None:
+                self.effects(s["init"], st)
+                if s["pat"].get("k") == "Bind":
+                    t = self.ev(s["init"], st)
+                    if t is not None:
+                        st["vars"][s["pat"]["v"]] = t
+                    else:
+                        st["vars"].pop(s["pat"]["v"], None)
+            yield st
+        elif k == "Block":
+            yield from self.block(s, st)
+        elif k == "Assign":
+            l = peel(s["l"])
+            t = self.ev(s["r"], st)
+            if l.get("k") == "Var" and l["v"] == self.cur:
+                st["cur"] = t if t is not None else {"?": 1}
+            elif l.get("k") == "Var":
+                if t is not None:
+                    st["vars"][l["v"]] = t
+                else:
+                    st["vars"][l["v"]] = {"?" + l["v"]: 1}
+            yield st
+        elif k == "AssignOp":
+            l = peel(s["l"])
+            t = self.ev(s["r"], st)
+            sign = {"AddAssign": 1, "SubAssign": -1}.get(s["op"])
+            tgt = "cur" if (l.get("k") == "Var" and l["v"] == self.cur) else None
+            if sign is None or t is None:
+                t, sign = {"?": 1}, 1
+            if tgt:
+                st["cur"] = _t_add(st["cur"], t, sign)
+                st["trace"].append(f"cur {'+=' if sign > 0 else '-='} {_t_show(t)}")
+            elif l.get("k") == "Var":
+                st["vars"][l["v"]] = _t_add(st["vars"].get(l["v"], {l["v"].split('#')[0]: 1}), t, sign)
+            yield st
+        elif k == "If":
+            c = s["c"]
+            a, b = self.fork(st), self.fork(st)
+            self.effects(c, a)
+            self.effects(c, b)
+            pc = peel_block(c)
+            if pc.get("k") == "Let":
+                # binding branch: variables of the pattern become symbols named after the scrutinee
+                from .taint_rules import pat_binds
+                scr = self.sym(pc["e"]) or "scrutinee"
+                for bnd in pat_binds(pc["pat"]):
+                    a["vars"][bnd["v"]] = {bnd["v"].split("#")[0]: 1}
+                a["trace"].append(f"{scr} is {pc['pat'].get('variant', 'matched')}")
+                b["trace"].append(f"{scr} is not {pc['pat'].get('variant', 'matched')}")
+            yield from self.block(s["t"], a)
+            if s.get("f") is not None:
+                yield from self.block(s["f"], b)
+            else:
+                yield b
+        elif k == "Return":
+            e = s.get("e")
+            self.results.append(("return", e, st))
+            return
+        elif k == "Match":
+            for arm in s["arms"]:
+                a = self.fork(st)
+                self.effects(s["e"], a)
+                yield from self.block(arm["body"], a)
+        else:
+            self.effects(s, st)
+            yield st
+
+
+@rule("S3", ["C17"], floor=5, doc="IntrospectionResult::total_index: on every acyclic path of total_index_impl (affine terms over selection, "
+      "len(keyvals), index, cursor) (a) a frame that yields no element advances the cursor by exactly len(frame.keyvals) — the amount "
+      "do_introspect adds to total_len for that frame — and (b) an element returned from a frame is keyvals[index - cursor-on-entry - "
+      "advance of the expanded sub-tree]")
+def s3(facts, tier):
+    f = facts.fns.get("savefile::IntrospectionResult::total_index_impl")
+    g = facts.fns.get("savefile::Introspector::do_introspect")
+    if f is None or g is None:
+        return
+    # the total is the sum of len(frame.keyvals) over the frames
+    ok_total = False
+    for x in walk(g["body"]):
+        if x.get("k") == "For":
+            for y in walk(x["body"]):
+                if y.get("k") == "AssignOp" and y["op"] == "AddAssign":
+                    r = peel_block(peel(y["r"]))
+                    if r.get("k") == "Call" and (callee(r) or "").endswith("::len") and "keyvals" in str(r["args"][0]):
+                        tot = peel(y["l"])
+                        ok_total = tot.get("k") == "Var"
+    yield ob(["C17"], "S3", "total-is-sum-of-frame-lengths", "pass" if ok_total else "undecided", where(g),
+             "do_introspect: total_len = Σ len(frame.keyvals)" if ok_total else "do_introspect: computation of the total length not recognised")
+    ps = f["params"]
+    names = [p["pat"]["v"] for p in ps if p.get("pat") and p["pat"].get("k") == "Bind"]
+    cur = next((v for v in names if v.split("#")[0] == "cur"), names[-1] if names else None)
+    idx = next((v.split("#")[0] for v in names if v.split("#")[0] == "index"), "index")
+    ap = AffinePaths(f, cur, f["id"])
+    res = ap.run()
+    na = nb = 0
+    for kind, e, st in res:
+        if kind == "fallthrough":
+            continue
+        e0 = peel_block(peel(e)) if e is not None else {}
+        is_none = e0.get("k") == "Adt" and e0.get("variant") == "None"
+        frame_len = [s for s in _syms(st) if str(s).startswith("len(") and "keyvals" in str(s)]
+        recs = {f"REC{i}": 1 for i in range(1, st["rec"] + 1)}
+        if is_none:
+            touched = any("cur" in t for t in st["trace"]) or st["rec"]
+            if not touched and not any("selected" in t for t in st["trace"]):
+                continue       # the depth guard: no frame, cursor untouched
+            na += 1
+            delta = _t_add(st["cur"], {"cur0": 1}, -1)
+            lens = {s for s in delta if str(s).startswith("len(")} or {"len(frame.keyvals)"}
+            want = _t_add({next(iter(lens)): 1}, recs)
+            ok = delta == want
+            yield ob(["C17"], "S3", f"no-element-path#{na}:cursor-advance", "pass" if ok else "violation", where(f),
+                     (f"path [{'; '.join(st['trace'])}]: cursor advances by {_t_show(delta)}" if ok else
+                      f"total_index_impl, path [{'; '.join(st['trace'])}]: a frame that yields no element advances the flat cursor by "
+                      f"{_t_show(delta)} instead of {_t_show(want)}: indices handed to the enclosing frames are shifted, so total_index "
+                      f"returns the wrong element, None below total_len, or underflows"))
+        elif e0.get("k") == "Adt" and e0.get("variant") == "Some":
+            inner = e0["fields"][0]["e"]
+            ix = next((y for y in walk(inner) if (y.get("k") == "Call" and (callee(y) or "").endswith("Index::index")
+                                                   and "keyvals" in str(y["args"][0])) or
+                       (y.get("k") == "Index" and "keyvals" in str(y["e"]))), None)
+            if ix is None:
+                continue       # the element found by the recursive call is passed through
+            nb += 1
+            it = ap.ev(ix["args"][1] if ix.get("k") == "Call" else ix["i"], st)
+            want = _t_add(_t_add({idx: 1}, {"cur0": 1}, -1), recs, -1)
+            ok = it == want
+            yield ob(["C17"], "S3", f"element-path#{nb}:frame-index", "pass" if ok else ("undecided" if it is None else "violation"), where(f),
+                     f"path [{'; '.join(st['trace'])}]: returns keyvals[{_t_show(it) if it is not None else '?'}]" if ok else
+                     f"total_index_impl, path [{'; '.join(st['trace'])}]: returns keyvals[{_t_show(it) if it is not None else '?'}], "
+                     f"expected keyvals[{_t_show(want)}]")
+
+
+def _syms(st):
+    out = set(st["cur"])
+    for t in st["vars"].values():
+        out |= set(t)
+    return out
